@@ -13,7 +13,7 @@ def profile(st):
 CHECK = SessionCheck(
     prop='C19', profile=profile,
     monitors=lambda: [Registry(), HpMonitor(('C19',))],
-    tiers={'quick': 1500, 'thorough': 150_000},
+    tiers={'quick': 1500, 'thorough': 60_000},
     nontrivial=lambda r: r['counters'].get('c19_mode_dna', 0) + r['counters'].get('c19_mode_explicit', 0) + r['counters'].get('c19_mode_defaults', 0) > 0,
     rule=('one seed -> one session with 1-2 routes; per route a hyperparameter supply mode (none / declared defaults / dna() / '
           'explicit dict / explicit + dna) and 1-5 declarations (int/float, negative and fractional bounds, end letters over-sampled); '
